@@ -62,7 +62,8 @@ theorem incoming_runsEq (c : Cfg) {rs rs' : List Run} (h : RunsEq rs rs') (x : E
 
 /-- same segments / store / root, read-equivalent runs, indistinguishable idmaps ⇒ same reads -/
 theorem eqv_runsEq (c : Cfg) {x y : Engine} (hr : RunsEq x.runs y.runs) (h1 : x.segs = y.segs)
-    (h2 : x.store = y.store) (h3 : x.propsRoot = y.propsRoot) (hm : IdEq x.idmap y.idmap)
+    (h2 : x.store = y.store) (h3 : x.propsRoot = y.propsRoot) (h4 : x.storeRoot = y.storeRoot)
+    (hm : IdEq x.idmap y.idmap)
     (hi : x.interner = y.interner) (hv : x.vecs = y.vecs) : Eqv c x y := by
   refine ⟨hm, hi, hv, fun n => RunEq.isTombNode hr n, ?_, ?_, ?_, ?_⟩
   · intro n rel
@@ -77,7 +78,7 @@ theorem eqv_runsEq (c : Cfg) {x y : Engine} (hr : RunsEq x.runs y.runs) (h1 : x.
     have e2 : ({ x with runs := y.runs } : Engine).incoming c n rel = y.incoming c n rel := by
       unfold Engine.incoming; rw [h1]
     rw [e1, e2] at this; exact this
-  · intro n k; unfold Engine.nodeProp; rw [RunEq.npropRuns hr, h2, h3]
-  · intro e k; unfold Engine.edgeProp; rw [RunEq.epropRuns hr, h2, h3]
+  · intro n k; unfold Engine.nodeProp; rw [RunEq.npropRuns hr, visibleStore_congr h2 h3 h4]
+  · intro e k; unfold Engine.edgeProp; rw [RunEq.epropRuns hr, visibleStore_congr h2 h3 h4]
 
 end Nervus.Storage
